@@ -5,6 +5,8 @@ CONSTANTS
   PairDepth = 2
   NearDepth = 2
   DeepDepth = 3
+  HierDepth = 2
+  XDepth = 1
   EmitCases = FALSE
 INIT Init
 NEXT Next
